@@ -48,6 +48,7 @@ func dropRequired(t *rapid.T, s *core.StructSpec, n *core.WNode, dropped *int) {
 		}
 	}
 	var keep []core.WField
+	here := 0
 	for i := range n.Fields {
 		wf := n.Fields[i]
 		f := s.ByID(wf.ID)
@@ -60,14 +61,49 @@ func dropRequired(t *rapid.T, s *core.StructSpec, n *core.WNode, dropped *int) {
 			switch rapid.IntRange(0, 7).Draw(t, "reqedit") {
 			case 0, 1:
 				*dropped++
+				here++
 				continue
 			case 2:
 				v, wt := genForeignValue(t, int(wf.T))
 				wf.T, wf.V = wt, v
 				*dropped++
+				here++
 			}
 		}
 		keep = append(keep, wf)
+	}
+	// a second occurrence of a field that is there does not stand in for one that is not: repeat
+	// known fields (required ones first) as many times as fields were taken away - and now and then
+	// in a complete struct, where it must do no harm
+	ndup := 0
+	if here > 0 && rapid.Bool().Draw(t, "standin") {
+		ndup = here
+	} else if here == 0 && rapid.IntRange(0, 9).Draw(t, "harmlessdup") == 0 {
+		ndup = 1
+	}
+	for ; ndup > 0 && len(keep) > 0; ndup-- {
+		var cands []int
+		for i, wf := range keep {
+			if f := s.ByID(wf.ID); f != nil && f.Type.WT() == wf.T && f.Req == core.Required {
+				cands = append(cands, i)
+			}
+		}
+		if len(cands) == 0 {
+			for i, wf := range keep {
+				if f := s.ByID(wf.ID); f != nil && f.Type.WT() == wf.T {
+					cands = append(cands, i)
+				}
+			}
+		}
+		if len(cands) == 0 {
+			break
+		}
+		k := cands[rapid.IntRange(0, len(cands)-1).Draw(t, "dupwhich")]
+		pos := rapid.IntRange(0, len(keep)).Draw(t, "duppos")
+		cp := keep[k]
+		keep = append(keep, core.WField{})
+		copy(keep[pos+1:], keep[pos:])
+		keep[pos] = cp
 	}
 	n.Fields = keep
 }
